@@ -139,6 +139,8 @@ class Ctx:
 
     # ---- Lean side
     def driver(self, lines):
+        if not lines:
+            return []
         exe = os.path.join(LEAN, ".lake/build/bin/dvdriver")
         rc, out, err = sh([exe], inp="\n".join(lines) + "\n", timeout=3600)
         if rc != 0:
